@@ -1131,6 +1131,11 @@ def check_C14(tier):
                           {"input": raw})
     # finite collections: alphabet = symbols occurring, without the dot
     rng = random.Random(seed() + 14)
+    # symbols that mean something elsewhere in the library ([nop], [epsilon], index / ring / branch symbols) are
+    # ordinary symbols for the tokenisation utilities
+    real = ["[C][nop][O]", "[nop]", "[C].[nop]", "[nop][nop][C]", "[epsilon][C]", "[C][Branch1][C][O][Ring1][Ring2]", "[C].[C]",
+            "[=C][#N]", "[C@@H1][N+1]", "", "[Expl=Ring1][Cexpl]", "[.C]"[:1] + "C]"]
+    wf = wf + [{"raw": r_, "toks": de.split_tokens(r_)} for r_ in real]
     for _ in range(300 if quick else 3000):
         coll = rng.sample(wf, rng.randint(0, 6))
         want = set(t for v in coll for t in v["toks"]) - {"."}
